@@ -926,7 +926,8 @@ func (p *PolicyManager) SyncPodChains(pod *corev1.Pod) error {
 		return p.deletePodChains(pod)
 	}
 	if pod.Status.PodIP == "" {
-		return nil
+		// a pod which has lost its ip (e.g. evicted) must not keep the chain and the rules of its former ip
+		return p.deletePodChains(pod)
 	}
 	if err := p.ensureBasicChain(); err != nil {
 		return err
